@@ -173,9 +173,20 @@ func replayAudio(c *rp.Ctx, i int, cs *tagCase) rp.Result {
 				"Encode(%v): first byte %#02x (format %d, rate %d, size %d, type %d), want %#02x (format %d)",
 				f, tag[0], tag[0]>>4, tag[0]>>2&3, tag[0]>>1&1, tag[0]&1, cs.First, f.Fmt)}
 		}
+		// an encoded body stays what it was, and a decoded frame stays what it was, while the same packager goes on
+		// encoding and decoding other frames (no recycled buffers)
+		keep := append([]byte(nil), tag...)
 		back, err := p.Decode(tag)
 		if err != nil {
 			return rp.Fail(i, "Decode(Encode(%v)) failed: %v (body % x...)", f, err, head(tag))
+		}
+		other := &flv.AudioFrame{SoundFormat: fr.SoundFormat, SoundRate: fr.SoundRate, SoundSize: 1 - fr.SoundSize&1, SoundType: fr.SoundType,
+			Trait: fr.Trait, AudioLevel: fr.AudioLevel ^ 0x5a5a, Raw: bytes.Repeat([]byte{0xa5}, len(raw)+3)}
+		if otag, err := p.Encode(other); err == nil {
+			p.Decode(otag)
+		}
+		if !bytes.Equal(tag, keep) {
+			return rp.Fail(i, "the body Encode(%v) returned changed when the packager encoded another frame: %s", f, rp.FirstDiff(tag, keep))
 		}
 		if err := sameAudio(f, raw, back); err != nil {
 			return rp.Fail(i, "Decode(Encode(f)) != f: %v (body % x...)", err, head(tag))
@@ -270,9 +281,19 @@ func replayVideo(c *rp.Ctx, i int, cs *tagCase) rp.Result {
 		if int(tag[0]) != cs.First {
 			return rp.Fail(i, "Encode(%v): first byte %#02x (frame type %d, codec %d), want %#02x", f, tag[0], tag[0]>>4, tag[0]&15, cs.First)
 		}
+		keep := append([]byte(nil), tag...)
 		back, err := p.Decode(tag)
 		if err != nil {
 			return rp.Fail(i, "Decode(Encode(%v)) failed: %v (body % x...)", f, err, head(tag))
+		}
+		other := flv.NewVideoFrame()
+		other.CodecID, other.FrameType, other.Trait, other.CTS = fr.CodecID, fr.FrameType, fr.Trait, fr.CTS^0x155
+		other.Raw = bytes.Repeat([]byte{0xa5}, len(raw)+3)
+		if otag, err := p.Encode(other); err == nil {
+			p.Decode(otag)
+		}
+		if !bytes.Equal(tag, keep) {
+			return rp.Fail(i, "the body Encode(%v) returned changed when the packager encoded another frame: %s", f, rp.FirstDiff(tag, keep))
 		}
 		if err := sameVideo(f, raw, back); err != nil {
 			return rp.Fail(i, "Decode(Encode(f)) != f: %v (body % x...)", err, head(tag))
